@@ -11,7 +11,8 @@
 
    This file contains only the property theorems; proofs are in Proofs/ZlibFile*.v. *)
 From Coq Require Import ZArith List.
-Require Import JV.Base.PyPrelude JV.Model.ZlibFile JV.Proofs.ZlibFile JV.Proofs.ZlibFileWrite JV.Proofs.ZlibFileOps.
+Require Import JV.Base.PyPrelude JV.Model.ZlibFile JV.Proofs.ZlibFile JV.Proofs.ZlibFileWrite JV.Proofs.ZlibFileOps
+               JV.Gen.C13_Constants.
 Import ListNotations.
 Open Scope Z_scope.
 
@@ -209,3 +210,12 @@ Theorem C13_w_closed : forall C (compress : C -> bytes -> C * bytes) (flush : C 
   wstep C compress flush WFlush st = (VNone, st).
 Proof. exact wop_closed. Qed.
 Print Assumptions C13_w_closed.
+
+(* the model's mode codes are the live _MODE_* constants (Gen/C13_Constants.v is regenerated from
+   joblib/compressor.py on every run), a raw block is at least one byte, zlib and gzip differ only in wbits *)
+Theorem C13_constants :
+  mode_code MClosed = live_MODE_CLOSED /\ mode_code MRead = live_MODE_READ /\
+  mode_code MReadEOF = live_MODE_READ_EOF /\ mode_code MWrite = live_MODE_WRITE /\
+  0 < live_BUFFER_SIZE /\ live_zlib_wbits <> live_gzip_wbits.
+Proof. exact constants_agree. Qed.
+Print Assumptions C13_constants.
